@@ -5,6 +5,8 @@ import (
 	"os"
 	"strings"
 
+	"golang.org/x/tools/go/ssa"
+
 	"ivgsa/internal/cfgx"
 	"ivgsa/internal/sym"
 )
@@ -45,7 +47,7 @@ func ruleC01_4(c *Ctx) {
 	var count *sym.Event
 	var starts, lengths, apps []*sym.Event
 	for _, ev := range run.in.Events {
-		if ev.Frame != run.fr || ev.Site == nil {
+		if ev.Site == nil {
 			continue
 		}
 		switch ev.Kind {
@@ -69,10 +71,10 @@ func ruleC01_4(c *Ctx) {
 	nearestDominating := func(cands []*sym.Event, at *sym.Event) *sym.Event {
 		var best *sym.Event
 		for _, cd := range cands {
-			if cd.Site == at.Site || !cfgx.InstrDominates(cd.Site, at.Site) {
+			if cd == at || !evDominates(cd, at) {
 				continue
 			}
-			if best == nil || cfgx.InstrDominates(best.Site, cd.Site) {
+			if best == nil || evDominates(best, cd) {
 				best = cd
 			}
 		}
@@ -94,7 +96,7 @@ func ruleC01_4(c *Ctx) {
 	for _, ln := range lengths {
 		all := len(chunks) > 0
 		for _, ch := range chunks {
-			if !cfgx.InstrDominates(ln.Site, ch.start.Site) {
+			if !evDominates(ln, ch.start) {
 				all = false
 			}
 		}
@@ -144,11 +146,11 @@ func ruleC01_4(c *Ctx) {
 			detail = fmt.Sprintf("length %s, appended %s", shortKey(ch.length.Args[1]), shortKey(scratch))
 			// nothing else is written to the output between the length and the chunk
 			for _, ev := range run.in.Events {
-				if ev.Frame != run.fr || ev.Site == nil || ev == ch.length || ev == ch.app {
+				if ev.Site == nil || ev == ch.length || ev == ch.app {
 					continue
 				}
 				if (ev.Kind == "append" || ev.Kind == "appendslice" || ev.Kind == "encode") && len(ev.Args) > 0 && (isField(ev.Args[0], bufI) || ev.Kind != "encode") {
-					between := cfgx.InstrDominates(ch.length.Site, ev.Site) && cfgx.InstrDominates(ev.Site, ch.app.Site)
+					between := evDominates(ch.length, ev) && evDominates(ev, ch.app)
 					writesOut := ev.Kind == "encode" && isField(ev.Args[0], bufI)
 					if ev.Kind != "encode" {
 						// an append whose result is stored into the output buffer: its base is the output
@@ -172,7 +174,12 @@ func ruleC01_4(c *Ctx) {
 				continue
 			}
 			// the condition under which the chunk is appended, without the exit conditions of the loops that built it
-			g := run.fr.EquivalentReach(ch.app.Site.Block().Index)
+			// (lifted to Reset's own frame when the chunk is written by a helper)
+			appSite := liftTo(ch.app, run.fr)
+			var g *sym.Term
+			if appSite != nil {
+				g = run.fr.EquivalentReach(appSite.Block().Index)
+			}
 			if g == nil {
 				g = ch.app.Guard
 			}
@@ -197,4 +204,35 @@ func ruleC01_4(c *Ctx) {
 	} else {
 		R.Unknown("encode.(*Encoder).Reset#chunk-count", pos, "no chunk count written")
 	}
+}
+
+// liftTo returns the instruction of frame f through which the event happens: its own site when it belongs to f,
+// else the call site in f of the (transitively) inlined callee it belongs to; nil if f is not an ancestor.
+func liftTo(ev *sym.Event, f *sym.Frame) ssa.Instruction {
+	site := ev.Site
+	for fr := ev.Frame; fr != nil; fr = fr.Parent {
+		if fr == f {
+			return site
+		}
+		site = fr.Site
+	}
+	return nil
+}
+
+// evDominates: event a's instruction dominates event b's, compared in their deepest common frame.
+func evDominates(a, b *sym.Event) bool {
+	anc := map[*sym.Frame]bool{}
+	for f := a.Frame; f != nil; f = f.Parent {
+		anc[f] = true
+	}
+	for f := b.Frame; f != nil; f = f.Parent {
+		if anc[f] {
+			sa, sb := liftTo(a, f), liftTo(b, f)
+			if sa == nil || sb == nil || sa == sb {
+				return false
+			}
+			return cfgx.InstrDominates(sa, sb)
+		}
+	}
+	return false
 }
